@@ -154,11 +154,14 @@ func tokenOfName(s string) int {
 }
 
 func fdMatrix(k int) matrix.Matrix {
-	s := []float64{1, 0.5, 2, 0.25}[k%4]
+	// font dictionaries 0 and 2 have the same matrix (and different private dictionaries, see stdHW)
+	s := []float64{1, 0.5, 1, 0.25}[k%4]
 	return matrix.Matrix{s, 0, 0, s, 0, 0}
 }
 
-func stdHW(k int) float64 { return float64(40 + k) }
+// font dictionaries 2j and 2j+1 have private dictionaries with the same contents (distinct objects) and
+// different matrices: a font dictionary is the pair, and equal parts do not make equal dictionaries
+func stdHW(k int) float64 { return float64(40 + k/2) }
 
 // Ident identifies the opaque tokens of a constructed font.
 type Ident struct {
@@ -323,7 +326,7 @@ func Build(F *Font, salt uint32, pad *Pad) (*sfnt.Font, *Ident) {
 			for k := 0; k < numFD; k++ {
 				out.Private = append(out.Private, &type1.PrivateDict{
 					BlueValues: []funit.Int16{-10, 0, 700, 710}, BlueScale: 0.039625, BlueShift: 7, BlueFuzz: 1,
-					StdHW: stdHW(k), StdVW: float64(80 + k)})
+					StdHW: stdHW(k), StdVW: float64(80 + k/2)})
 				out.FontMatrices = append(out.FontMatrices, fdMatrix(k))
 			}
 			out.ROS = &cid.SystemInfo{Registry: "Adobe", Ordering: "Identity", Supplement: 0}
@@ -887,10 +890,18 @@ func ProjectCFF(p *Proj, o *cff.Outlines, id *Ident) {
 			}
 			e.Mat = -2
 			if fd >= 0 && fd < len(o.FontMatrices) {
+				// a font dictionary is identified by the PAIR (private dictionary, matrix): dictionaries
+				// 2j and 2j+1 have equal private dictionaries, 0 and 2 equal matrices
+				e.Mat = -3
 				for k := 0; k < numFD; k++ {
-					if o.FontMatrices[fd] == fdMatrix(k) {
+					if o.FontMatrices[fd] == fdMatrix(k) && e.PD >= 0 && float64(40+e.PD) == stdHW(k) {
 						e.Mat = k
 					}
+				}
+				if e.Mat >= 0 {
+					e.PD = e.Mat
+				} else if e.PD >= 0 {
+					e.PD = -3
 				}
 			}
 		}
